@@ -406,13 +406,13 @@ def state_unsubscribe_table(ctx, program, rid):
     import itertools
     from ..absint import ClassV, DictV
     add_uid, del_uid = "state.py::State.notify_add", "state.py::State.notify_del"
-    names = ("d.a", "d.a.old", "d.b", "d.b.attr", "plain")
+    names = ("d.a", "d.a.old", "d.b", "d.b.attr", "plain", "d.c.old.attr")  # (a four-part name: subscribed or not, add and del must agree)
     n = 0
     for order in itertools.permutations(names):
         if order.index("d.a") > order.index("d.a.old") and order.index("d.b") > order.index("d.b.attr") and order[0] == "plain":
             pass
         n += 1
-        if n % 4:      # every 4th permutation: 30 orders
+        if n % 24:     # every 24th permutation: 30 orders
             continue
         var_names = ListV(tuple(Const(x) for x in order), "set")
         q, q2 = ObjV("q", "Queue"), ObjV("q2", "Queue")
